@@ -65,6 +65,11 @@ def check_body(ctx, fx, cfg, text, bclass):
 
 def run(ctx):
     rng = ctx.rng
+    # termination under a progress watchdog first (one shard), checkpointed: an implementation that hangs would
+    # otherwise take the whole shard - and these observations - with it
+    if ctx.shard == 1 % ctx.nshards:
+        termination(ctx, rng)
+        ctx.checkpoint()
     fxs = fixtures()
     keys = list(fxs)
     # 1. member matrix
@@ -145,9 +150,7 @@ def run(ctx):
 
     # 7. HTTP sample through a real server
     http_sample(ctx, rng)
-    # 8. termination under a progress watchdog (one shard)
-    if ctx.shard == 1 % ctx.nshards:
-        termination(ctx, rng)
+
 
 
 def termination_bodies(rng):
@@ -186,7 +189,8 @@ def termination(ctx, rng):
     from vf import subcase
     cases = termination_bodies(rng)
     for version, jc in ((2.0, True), (1.0, True), (2.0, False)):
-        statuses, hung = subcase.run_bodies([b for _, b in cases], version=version, use_jsonclass=jc, stall_s=20.0)
+        # normal answers take milliseconds; 10 s without an answer to ONE body is four orders of magnitude more
+        statuses, hung = subcase.run_bodies([b for _, b in cases], version=version, use_jsonclass=jc, stall_s=10.0)
         for i, st in enumerate(statuses):
             ctx.case(("termination", version, jc, cases[i][0], len(cases[i][1]), cases[i][1][:80]))
             ctx.count("judged:termination")
@@ -200,7 +204,8 @@ def termination(ctx, rng):
             ctx.violate("dispatcher-did-not-terminate:" + bclass,
                         {"config": [version, "default", jc], "bclass": bclass, "body": body if len(body) < 3000 else None,
                          "body_head": body[:200], "body_len": len(body)},
-                        {"no_progress_for_s": 20, "bodies_answered_before": hung})
+                        {"no_progress_for_s": 10, "bodies_answered_before": hung})
+            break   # one witness is enough; every further configuration would cost the same wait
         elif hung is not None:
             ctx.unsure("termination child died after %d bodies" % (-1 - hung))
 
@@ -271,6 +276,13 @@ def finalize(m, tier):
 def replay(ctx, case):
     cfg = tuple(case["config"])
     body = case.get("body")
+    if body is not None and case.get("bclass") in ("long-class-name", "long-method-name", "long-id", "wide-batch",
+                                                    "long-string", "huge-number", "many-keys"):
+        from vf import subcase
+        statuses, hung = subcase.run_bodies([body], version=cfg[0], use_jsonclass=cfg[2], stall_s=10.0)
+        if hung is not None and hung >= 0:
+            ctx.violate("dispatcher-did-not-terminate:" + case["bclass"], case, {"no_progress_for_s": 10})
+        return
     if body is None:
         ctx.unsure("body too large to store; re-run with the recorded seed (head=%r)" % case.get("body_head"))
         return
